@@ -62,7 +62,7 @@ def main(argv):
     results, errors = [], []
     for j, p in enumerate(procs):
         try:
-            out, err = p.communicate(timeout=max(10.0, deadline + 240 - (time.time() - t0)))
+            out, err = p.communicate(timeout=max(10.0, deadline + 420 - (time.time() - t0)))
         except subprocess.TimeoutExpired:
             p.kill()
             out, err = p.communicate()
@@ -202,9 +202,11 @@ def report(prop, tier, verif_seed, mod, results, errors, wall, n, w, src):
     print(f"{prop} {tier}: {runs} runs ({len(digests)} distinct non-trivial) in {wall:.1f}s, "
           f"{len(lines)} violation(s), {sum(known.values())} known-finding hit(s)"
           + (", TRUNCATED" if truncated else ""))
+    if lines:
+        return 1            # a violation found by the surviving workers stands
     if errors:
         return 2
     if runs == 0:
         print("HARNESS-ERROR no run executed")
         return 2
-    return 1 if lines else 0
+    return 0
